@@ -204,3 +204,63 @@ package drpcwire
 //@   use L.vprefix(pfB3(s), pfB3(t))
 //@   ensures [ok]  pfStatus(s) == 0 ==> pfStatus(t) == 0 && pfHdr(t) == pfHdr(s) && pfDataLen(t) == pfDataLen(s) && pfStream(t) == pfStream(s) && pfMessage(t) == pfMessage(s)
 //@   ensures [bad] pfStatus(s) == 2 ==> pfStatus(t) == 2
+
+// ---- Reader
+
+//@ spec rdM(r *Reader) int = r.opts.MaximumBufferSize
+//@ spec max0(x int) int = ite(x < 0, 0, x)
+// Representation invariant of Reader between calls and at the loop head of ReadPacketUsing.
+//@ spec readerInv(r *Reader) bool =
+//@      (len(r.buf) > 0 ==> r.curr == r.buf) &&
+//@      (cap(r.buf) > 0 ==> arr(r.curr) == arr(r.buf) && off(r.buf) <= off(r.curr) && off(r.curr) + len(r.curr) <= off(r.buf) + cap(r.buf)) &&
+//@      (cap(r.buf) == 0 ==> len(r.curr) == 0) &&
+//@      cap(r.buf) <= 2 * max0(rdM(r)) + 12350 &&
+//@      rdM(r) <= 17592186044416 && r.r != nil
+
+//@ func (*Reader).read
+//@   mode int
+//@   props C09 C13 C05
+//@   modifies mem(p), r.rerr
+//@   loop 1 invariant [i] 0 <= i && i <= 100 && r == r0 && p == p0
+//@   requires r.r != nil
+//@   ensures [shape] (n > 0 && n <= len(p) && err == nil) || (n == 0 && err != nil)
+
+//@ spec idLess(a ID, b ID) bool = a.Stream < b.Stream || (a.Stream == b.Stream && a.Message < b.Message)
+//@ spec idLeq(a ID, b ID) bool = a == b || idLess(a, b)
+//@ spec idZero(a ID) bool = a.Stream == 0 && a.Message == 0
+
+// ReadPacketUsing against the reference reassembly step (one frame at a time):
+//   lower id -> error; different id or no partial packet -> start a new packet from this frame;
+//   same id, other kind -> error; same id -> concatenate, control bits OR-ed;
+//   more than the maximum -> error; done -> deliver and bump the message id.
+// "gid"/"gpkt" are ghost copies of the reader id and the partial packet taken at the loop head.
+//@ func (*Reader).ReadPacketUsing
+//@   mode int
+//@   props C09 C13 C05 C02
+//@   requires readerInv(r)
+//@   requires arr(buf) == 0 || (arr(buf) != arr(r.buf) && arr(buf) != arr(r.curr))
+//@   modifies memcap(buf), memcap(r.buf), r.curr, r.buf, r.id, r.rerr
+//@   ghost loop:1 gid = r.id
+//@   ghost loop:1 gpkt = pkt
+//@   loop 1 invariant [ri]   readerInv(r) && r == r0
+//@   loop 1 invariant [pkt]  (idZero(pkt.ID) || pkt.ID == r.id) && len(pkt.Data) <= max0(rdM(r))
+//@   loop 1 invariant [mono] idLeq(old(r.id), r.id) && (idZero(pkt.ID) || idLeq(old(r.id), pkt.ID))
+//@   loop 1 invariant [prov] (fresh(r.buf) || arr(r.buf) == 0 || (arr(r.buf) == arr(old(r.buf)) && off(r.buf) == off(old(r.buf)) && cap(r.buf) == cap(old(r.buf)))) &&
+//@                           (fresh(pkt.Data) || arr(pkt.Data) == 0 || (arr(pkt.Data) == arr(buf) && off(pkt.Data) == off(buf) && cap(pkt.Data) == cap(buf)))
+//@   loop 1 step [more]  !ok ==> r.id == gid && pkt.ID == gpkt.ID && pkt.Kind == gpkt.Kind && pkt.Control == gpkt.Control && pkt.Data == gpkt.Data
+//@   loop 1 step [new]   ok && (gid != fr.ID || idZero(gpkt.ID)) ==>
+//@                       r.id == fr.ID && pkt.ID == fr.ID && pkt.Kind == fr.Kind && pkt.Control == fr.Control && len(pkt.Data) == len(fr.Data)
+//@   loop 1 step [cont]  ok && !(gid != fr.ID || idZero(gpkt.ID)) ==>
+//@                       r.id == gid && pkt.ID == gpkt.ID && pkt.Kind == gpkt.Kind && pkt.Control == (gpkt.Control || fr.Control) &&
+//@                       len(pkt.Data) == len(gpkt.Data) + len(fr.Data)
+//@   loop 1 step [notdone] ok ==> !fr.Done && !idLess(fr.ID, gid)
+//@   site (*Class).Wrap#1 assert [malformed]          pfStatus(r.curr) == 2
+//@   site (*Class).New#1  assert [C09.overflow-justified] pfStatus(r.curr) == 1 && len(r.curr) > rdM(r) + 31
+//@   site (*Class).New#3  assert [monotone-justified] idLess(fr.ID, r.id)
+//@   site (*Class).New#4  assert [kind-justified]     fr.ID == r.id && !idZero(pkt.ID) && fr.Kind != pkt.Kind
+//@   site (*Class).New#5  assert [size-justified]     len(pkt.Data) > rdM(r)
+//@   ensures [ri]          err == nil ==> readerInv(r)
+//@   ensures [deliver]     err == nil ==> pkt.ID.Stream == r.id.Stream && pkt.ID.Message + 1 == r.id.Message
+//@   ensures [deliver-geq] err == nil ==> idLeq(old(r.id), pkt.ID) && len(pkt.Data) <= max0(rdM(r))
+//@   ensures [C09.id-monotone] idLeq(old(r.id), r.id)
+//@   ensures [err-empty]   err != nil ==> len(pkt.Data) == 0 && idZero(pkt.ID)
